@@ -106,7 +106,8 @@ def run_single(ctx, rng, N):
 
 
 def run_structured(ctx, rng, N):
-    """two sample dimensions and a sample MultiIndex: new data with the training sample count and with another one,
+    """two sample dimensions and a sample MultiIndex: new data with the training sample count and with another one, new data on
+    a subset of the training labels and on labels overlapping them,
     consecutive transforms of equally sized parts, every split along the first sample dimension"""
     import pandas as pd
     import xarray as xr
@@ -119,14 +120,16 @@ def run_structured(ctx, rng, N):
 
     for i in range(N):
         kind = ["two-dims", "multiindex"][i % 2]
-        count = ["same-count", "other-count"][(i // 2) % 2]
+        count = ["same-count", "other-count", "subset-of-training-labels", "overlapping-training-labels"][(i // 2) % 4]
+        yrs = {"same-count": [2010, 2011, 2012, 2013], "other-count": [2010, 2011], "subset-of-training-labels": [2001, 2003],
+               "overlapping-training-labels": [2003, 2004, 2005]}[count]
         p = int(rng.integers(3, 6))
         if kind == "two-dims":
             def mk(years):
                 return xr.DataArray(rng.standard_normal((len(years), 4, p)), dims=("year", "month", "x"),
                                     coords={"year": years, "month": [1, 2, 3, 4], "x": np.arange(p)})
             X = mk([2000, 2001, 2002, 2003])
-            new = mk([2010, 2011, 2012, 2013] if count == "same-count" else [2010, 2011])
+            new = mk(yrs)
             dim, split_dim = ("year", "month"), "year"
         else:
             def mk(years, months):
@@ -134,7 +137,7 @@ def run_structured(ctx, rng, N):
                 return xr.DataArray(rng.standard_normal((len(mi), p)), dims=("time", "x"), coords={"x": np.arange(p)}).assign_coords(
                     xr.Coordinates.from_pandas_multiindex(mi, "time"))
             X = mk([2000, 2001, 2002, 2003], [1, 2])
-            new = mk([2010, 2011, 2012, 2013], [1, 2]) if count == "same-count" else mk([2010, 2011], [1, 2, 3])
+            new = mk(yrs, [1, 2, 3] if count == "other-count" else [1, 2])
             dim, split_dim = "time", "time"
         replay = dict(kind=kind, count=count, X=np.asarray(X.values), new=np.asarray(new.values))
         ctx.case(("c05s", kind, count, p, i), nontrivial=True, tag="EOF/%s/%s" % (kind, count), sample=dict(cls="EOF", structure=kind, new=count, features=p))
@@ -355,7 +358,7 @@ def run(ctx):
     C.setup_impl_env()
     rng = ctx.rng.child("c05").np
     run_single(ctx, rng, ctx.n(36, 800))
-    run_structured(ctx, rng, ctx.n(8, 80))
+    run_structured(ctx, rng, ctx.n(16, 160))
     run_structured_cross(ctx, rng, ctx.n(4, 60))
     run_cross(ctx, rng, ctx.n(25, 600))
     run_multi(ctx, rng, ctx.n(6, 60))
